@@ -76,11 +76,11 @@ func (s *Set) Add(a rune) {
 // AddRange adds to a set.
 func (s *Set) AddRange(begin, end rune) {
 	beginNode := &s.Head
-	for beginNode.Forward != nil && begin > beginNode.Forward.End {
+	for beginNode.Forward != nil && begin-1 > beginNode.Forward.End {
 		beginNode = beginNode.Forward
 	}
 	endNode := &s.Tail
-	for endNode.Backward != nil && end < endNode.Backward.Begin {
+	for endNode.Backward != nil && end < endNode.Backward.Begin-1 {
 		endNode = endNode.Backward
 	}
 	if beginNode.Forward == nil && endNode.Backward == nil {
